@@ -158,9 +158,10 @@ pub fn run(ctx: &Ctx) -> usize {
   } else {
     (0..=9999).collect()
   };
-  let sxyears: Vec<i64> = if ctx.quick() { (0..200).map(|_| rng.range(2, 9997)).chain([1582i64, 641, 9493].into_iter()).collect() } else { (0..500).map(|_| rng.range(2, 9997)).collect() };
-  let ndays = if ctx.quick() { 1500 } else { 5000 };
-  let djs: Vec<i64> = (0..ndays).map(|_| rng.range(1721424 + 40, 5373484 - 40)).collect();
+  let sxyears: Vec<i64> = if ctx.quick() { (0..200).map(|_| rng.range(2, 9997)).chain([1582i64, 641, 9493].into_iter()).collect() } else { (2..=9997).step_by(4).collect() };
+  let ndays = if ctx.quick() { 1500 } else { 60000 };
+  // days for the hour lists: anywhere outside the reform seams (their lunar dates are C02 findings)
+  let djs: Vec<i64> = (0..ndays).map(|_| crate::windows::sample_day(&mut rng, 1721424 + 40, 5373484 - 40)).collect();
   let yp = crate::windows::deal(years, ctx.threads);
   let lp = crate::windows::deal(lyears, ctx.threads);
   let sp = crate::windows::deal(sxyears, ctx.threads);
